@@ -2,7 +2,8 @@
 # merge.py ID TIER : fold evidence/ID.part-*.json into evidence/ID.json
 import glob, json, sys
 pid, tier = sys.argv[1], sys.argv[2]
-parts = sorted(glob.glob(f"/verif/evidence/{pid}.part-*.json"))
+evdir = sys.argv[3] if len(sys.argv) > 3 else "/verif/evidence"
+parts = sorted(glob.glob(f"{evdir}/{pid}.part-*.json"))
 if not parts:
     sys.stderr.write(f"merge: no part evidence for {pid}\n"); sys.exit(2)
 out = None
@@ -38,4 +39,4 @@ if out["level"] != "model_checking":
             oc.pop(k, None)
 else:
     oc["states"] = max(oc["states"], 1); oc["transitions"] = max(oc["transitions"], 1)
-json.dump(out, open(f"/verif/evidence/{pid}.json", "w"), indent=1)
+json.dump(out, open(f"{evdir}/{pid}.json", "w"), indent=1)
